@@ -13,6 +13,7 @@
 package c06
 
 import (
+	"hash/fnv"
 	"context"
 	"errors"
 	"fmt"
@@ -72,6 +73,11 @@ type scenario struct {
 	rcptV    [][]verdict // [check][rcpt]
 	body     []verdict
 	override []bool // reject/quarantine with a reply override (FailAction.ReasonOverride)
+	// tempReason: the check's reason is a temporary (451 4.7.1) instead of a permanent (550 5.7.1) error.
+	tempReason []bool
+	// reroute[s][d]: the destination block delivers through `reroute { deliver_to &T }` (a nested
+	// pipeline without checks of its own) instead of `deliver_to &T`.
+	reroute [][]bool
 }
 
 func (sc *scenario) slotIndex(kind string, src, dst int) int {
@@ -200,6 +206,21 @@ func genScenario(p *prng.R, tag string, focus bool) *scenario {
 			sc.rcptV[c] = append(sc.rcptV[c], pick())
 		}
 	}
+	// Extras come from their own stream (keyed by what was drawn so far), so the scenarios above
+	// are what they were before these dimensions existed.
+	hs := fnv.New64a()
+	fmt.Fprint(hs, tag, sc.place, sc.conn, sc.snd, sc.body, sc.rcptV, sc.rcptDst)
+	px := prng.New(hs.Sum64(), uint64(sc.k), "c06-extras")
+	for c := 0; c < sc.k; c++ {
+		sc.tempReason = append(sc.tempReason, px.Chance(1, 3))
+	}
+	for s := 0; s < sc.nSrc; s++ {
+		var rr []bool
+		for d := 0; d < sc.nDst[s]; d++ {
+			rr = append(rr, px.Chance(1, 4))
+		}
+		sc.reroute = append(sc.reroute, rr)
+	}
 	return sc
 }
 
@@ -232,16 +253,25 @@ func (sc *scenario) render(refs []string) string {
 		}
 		line(ind, "}")
 	}
+	deliver := func(ind, s, d int) {
+		if sc.reroute[s][d] {
+			line(ind, "reroute {")
+			line(ind+1, "deliver_to &%s", sc.tgtName(sc.dstTgt[s][d]))
+			line(ind, "}")
+			return
+		}
+		line(ind, "deliver_to &%s", sc.tgtName(sc.dstTgt[s][d]))
+	}
 	srcBody := func(ind, s int) {
 		checks(ind, "source", s, -1)
 		if sc.nDst[s] == 1 {
-			line(ind, "deliver_to &%s", sc.tgtName(sc.dstTgt[s][0]))
+			deliver(ind, s, 0)
 			return
 		}
 		for d, hdr := range []string{"destination d0.example", "destination d1.example", "default_destination"} {
 			line(ind, "%s {", hdr)
 			checks(ind+1, "destination", s, d)
-			line(ind+1, "deliver_to &%s", sc.tgtName(sc.dstTgt[s][d]))
+			deliver(ind+1, s, d)
 			line(ind, "}")
 		}
 	}
@@ -518,6 +548,9 @@ func (sc *scenario) result(c int, v verdict, stage string) module.CheckResult {
 		return module.CheckResult{}
 	}
 	reason := &exterrors.SMTPError{Code: 550, EnhancedCode: exterrors.EnhancedCode{5, 7, 1}, Message: fmt.Sprintf("c06 %s by check %d at %s", v, c, stage), CheckName: "verif_check"}
+	if sc.tempReason[c] {
+		reason.Code, reason.EnhancedCode = 451, exterrors.EnhancedCode{4, 7, 1}
+	}
 	a := actions[v]
 	if sc.override[c] {
 		a = actionsOverride[v]
@@ -933,7 +966,7 @@ func (sc *scenario) describe() map[string]any {
 		for i, v := range sc.rcptV[c] {
 			rv[sc.rcpts[i]] = v.String()
 		}
-		cs = append(cs, map[string]any{"check": c, "placement": sc.placementOf(c), "conn": sc.conn[c].String(), "sender": sc.snd[c].String(), "rcpt": rv, "body": sc.body[c].String(), "reply_override": sc.override[c]})
+		cs = append(cs, map[string]any{"check": c, "placement": sc.placementOf(c), "conn": sc.conn[c].String(), "sender": sc.snd[c].String(), "rcpt": rv, "body": sc.body[c].String(), "reply_override": sc.override[c], "temporary_reason": sc.tempReason[c]})
 	}
 	m["checks"] = cs
 	refs := make([]string, sc.k)
@@ -1074,6 +1107,16 @@ func TestVerif(t *testing.T) {
 				r.Sample(sc.describe())
 			}
 			nontrivial := stagesOf(sc, func(v verdict) bool { return v != vNone }) != ""
+			for i := range sc.rcpts {
+				if sc.reroute[sc.sel][sc.rcptDst[i]] {
+					r.Count("recipients_delivered_through_reroute_block", 1)
+				}
+			}
+			for c2 := 0; c2 < sc.k; c2++ {
+				if sc.tempReason[c2] && (sc.conn[c2] == vReject || sc.snd[c2] == vReject || sc.body[c2] == vReject) {
+					r.Count("checks_rejecting_with_temporary_reason", 1)
+				}
+			}
 			c.Done(sc.shape(), nontrivial)
 		})
 	}
